@@ -33,6 +33,20 @@ CLAIMS = {
          "Structural part only: helpers return self; add_style's semicolon test is on every accepting path and precedes the write; (new, old) order iff prepend; has_class is membership in split(); remove_class filters split() tokens by != and re-joins or pops; css appends one declaration per non-None argument. The token-set algebra over histories is not decided."),
  "C17": ("effect-order analysis (Engine A traces) of Tag.__enter__/__exit__ and dispatch table of the display-hook wrapper", "4/C17",
          "On every path of __exit__ the saved hook is restored before foreign code runs and the tag is handed to it exactly once; __enter__ raises before writing anything when the tag is active and saves the hook before replacing it; wrapper table per value kind. Nesting follows by induction on depth."),
+ "C08": ("ownership/effect analysis (mutation sites vs. borrowed objects, per-function summaries to a fix-point, copy semantics read from each class's __copy__) + Engine A tables for tagify, equality coverage and delegation", "4/C08",
+         "No read-only entry point has, on any call path, a mutation site whose target existed before the call; tagify returns a new object with new containers and replaces every tagifiable/metadata child; render uses the tagified copy; repr/_repr_html_/str agree; == rejects other kinds and compares every instance field; the transient hook field is reset by __exit__. Value-level equality of copies is not decided."),
+ "C09": ("splice-safety idiom check of TagList.tagify + Engine A loop-body table + extracted sibling transducer (raise rows) + effect traces of HTMLDocument._gen_html_tag_tree", "4/C09",
+         "Splicing cannot skip or revisit children (descending index, fresh list, or exact advance); a TagList expansion replaces exactly its element; un-tagified objects without _repr_html_ raise and emit nothing on every layout state; document shape decisions and head hoisting operate on tagified content."),
+ "C11": ("effect-trace analysis (Engine A, callees opaque) of HTMLDocument.render / _gen_html_tag_tree / _hoist_head_content / as_html_tags against obligations R1-R6", "4/C11",
+         "Structural obligations R1-R5 of document assembly hold on every path (doctype, three-case table with both settings forwarded, head search/insert, meta charset first, listing iff non-empty, as_html_tags over the same list in order, meta/link/script/head order); R6 (listed = hoisted = returned) is a recorded known finding. The complete document string is not decided."),
+ "C12": ("effect-order analysis of copy_to (verification pass dominates every filesystem change; raise path touches nothing), argument-forwarding checks for save_html/as_dict, case table of source_path_map", "4/C12",
+         "Structural part only: URL and copy path both come from source_path_map with the same settings; quote() with default safe set on the same src/href fields the copier reads; copy_to verifies all listed files before rmtree/mkdir/copy; save_html copies every rendered dependency and returns the path. Byte identity and filesystem faults are runtime matters."),
+ "C13": ("extracted sanitiser chain applied to the 448-word '</script' language; regex-AST prefix vs derived open tag; Engine A tables for extraction de-duplication and first-occurrence replace; sibling agreement with HTMLDocument", "4/C13",
+         "No case variant of '</script' followed by any tokenizer terminator survives the serialiser while JSON-decoding is preserved; writer keys = reader parameters; the extraction pattern matches exactly the rendered open tag lazily to </script>; de-duplication is by membership in all earlier serialisations; the placeholder is replaced once by str.replace with HTMLDocument's listing/markup."),
+ "C18": ("nondeterminism-source reachability over the call-graph closure of the construction/render API (hash/id, set iteration, time/random/env, module-level state, memoising decorators) + dataflow of head_content's name + purity of read-only operations", "4/C18",
+         "No source of run-to-run or history-dependent variation is reachable from the API; head_content names are prefix + hashlib digest of the rendered payload; read-only operations mutate nothing (history independence). Digest injectivity is an axiom."),
+ "C20": ("ownership/effect analysis of JSXTag.tagify with the walker analysed under its visitor closure + Engine A tables (walker coverage, visitor, _serialize_attr dispatch, allow-list order) + asset existence", "4/C20",
+         "Conversion mutates nothing reachable from the component; the walker reaches every child and prop value; every metadata node seen is collected and attached together with react/react-dom; prop values are serialised per kind (lists element-wise, booleans before numbers); disallowed props are rejected before construction; script files exist. JavaScript well-formedness is not decided."),
 }
 checks = []
 for pid, (tech, ref, text) in sorted(CLAIMS.items()):
@@ -48,8 +62,7 @@ for pid, (tech, ref, text) in sorted(CLAIMS.items()):
         "level_note": NOTE,
         "technique": "static analysis: " + tech,
     })
-na = [{"property_id": p["id"], "reason": "check under construction in this session; will be claimed once its analyser runs clean on the tree"}
-      for p in props if p["id"] not in CLAIMS]
+na = [{"property_id": p["id"], "reason": "not claimed"} for p in props if p["id"] not in CLAIMS]
 m = {"version": 1, "setup_cmd": "true",
      "hooks": {"guard": "HTMLTOOLS_VERIF", "enable": "no hooks: the analysers only parse /repo's sources; nothing reads the guard",
                "baseline_off_cmd": "cd /repo && /venv/bin/python -m pytest -ra -q -p no:cacheprovider --timeout=900 --continue-on-collection-errors",
